@@ -98,11 +98,11 @@ func c19Judge(j *core.Job, r *batch.Result) (string, string) {
 	if r.Skipped != "" {
 		return "", ""
 	}
-	if r.PriorErr != nil {
-		return "", "" // the prior document itself did not decode; not this check's subject
-	}
 	if r.Panic != nil || r.Crash != "" {
 		return "panic:" + j.Op + ":" + j.Label, fmt.Sprintf("%s on type %s panicked (%s input): %s", j.Op, j.Type, j.Label, core.Clip(r.ErrText(), 500))
+	}
+	if r.PriorErr != nil {
+		return "", "" // the prior document itself did not decode; not this check's subject
 	}
 	if r.Err != nil && !bytes.Equal(r.Dump, r.PriorDump) {
 		return "partial:" + j.Op + ":" + j.Label, fmt.Sprintf("%s on type %s returned an error (%s) but changed the destination: before %s after %s", j.Op, j.Type, core.Clip(*r.Err, 150), core.Clip(string(r.PriorDump), 300), core.Clip(string(r.Dump), 300))
